@@ -1218,7 +1218,9 @@ class PseudoNetCDFFile(PseudoNetCDFSelfReg, object):
                 vals = np.ma.masked_equal(vals, equal)
 
             if invalid:
-                vals = np.ma.masked_invalid(vals)
+                # (np.ma.masked_invalid raises on a masked scalar)
+                vals = np.ma.masked_where(
+                    ~np.isfinite(np.ma.getdata(vals)), vals)
 
             if verbose > 1:
                 t1 = time()
